@@ -138,6 +138,8 @@ class World:
                 self.problems.append(f"{op} succeeded although the application had {'already closed' if self.api['closed'] else 'not accepted'} the connection")
             if op in ("iter_text", "iter_bytes") and out[1] == "<end of iteration>" and (self.api["closed"] or not self.api["accepted"]):
                 self.problems.append(f"{op} ended like a finished stream although the application had {'already closed' if self.api['closed'] else 'not accepted'} the connection (an illegal call raises)")
+            if op in ("raw_close", "raw_close_nocode") and self.api["closed"]:
+                self.problems.append(f"{op} (a raw close event) succeeded although the application had already closed the connection: nothing may follow a close")
             if op in ("raw_trunc", "raw_empty"):
                 self.problems.append(f"{op} (an event type that is not a websocket application event) succeeded")
             if op in ("accept", "accept_sub", "raw_accept") and (self.api["accepted"] or self.api["closed"]):
